@@ -12,7 +12,9 @@ import itertools
 import math
 from fractions import Fraction
 
-NAMES = ("A", "B", "C", "D", "E", "F", "G")
+# Candidate names of every family.  In ascending sort order (the families rely on that), and the first three are contained in
+# one another on purpose: code that matches names as substrings, or compares them by prefix, is exposed by every election check.
+NAMES = ("A", "AB", "ABC", "B", "C", "D", "E")
 
 
 def cands(n, names=NAMES):
